@@ -219,3 +219,47 @@ Definition optz_eqb (a b : option Z) : bool :=
 Definition check_text (c : list nat * list (list (option Z))) : Z :=
   let t := map Ascii.ascii_of_nat (fst c) in
   if list_eqb (list_eqb optz_eqb) (map (map Z_of_str) (lex t)) (snd c) then 0 else 71.
+
+(* ------------------------------------------------------------------------------------------ directories, names, extensions *)
+(* 81 get_n_ops_of_instance: raise mismatch   82 operation count differs
+   83 file generator: raise mismatch   84 number of instances differs   85 an instance (start/end/proc_times/pad_mask) differs
+   86 file name of a written instance differs   87 check_extension differs (or raised) *)
+Record ncase := NC { nc_kind : nat; nc_file : list (list tok); nc_obs : option Z }.
+Definition pj_of (k : nat) := match k with O => fjsp_parse_job_line | _ => jssp_parse_job_line end.
+Definition check_nops (c : ncase) : Z :=
+  match n_ops_of (pj_of (nc_kind c)) (nc_file c), nc_obs c with
+  | OutOfModel, _ => 9
+  | Raises, None => 0
+  | Ok n, Some m => if n =? m then 0 else 82
+  | _, _ => 81
+  end.
+
+Record gcase := GC {
+  gc_kind : nat;                              (* 0 FJSPFileGenerator, 1 JSSPFileGenerator *)
+  gc_nmax : option Z;                         (* the n_ops_max argument *)
+  gc_files : list (list (list tok));          (* the files in the order the generator listed them *)
+  gc_obs : option (list rinst)                (* rows of generator.td (num_jobs / num_machines / max_ops_per_job fields: 0) *)
+}.
+Definition row_cmp (m o : rinst) : bool :=
+  zz_eqb (r_start m) (r_start o) && zz_eqb (r_end m) (r_end o) && zzz_eqb (r_pt m) (r_pt o)
+  && list_eqb Bool.eqb (r_pad m) (r_pad o).
+Definition check_filegen (c : gcase) : Z :=
+  match file_generator (pj_of (gc_kind c)) (gc_nmax c) (gc_files c), gc_obs c with
+  | OutOfModel, _ => 9
+  | Raises, None => 0
+  | Ok ms, Some os => if negb (Nat.eqb (length ms) (length os)) then 84
+                      else if list_eqb row_cmp ms os then 0 else 85
+  | _, _ => 83
+  end.
+
+Definition check_name (c : Z * Z * Z * list nat) : Z :=
+  let '(id, nj, nm, obs) := c in
+  if list_eqb Nat.eqb (map Ascii.nat_of_ascii (file_name id nj nm)) obs then 0 else 86.
+
+Definition check_ext (c : list nat * list nat * option (list nat)) : Z :=
+  let '(f, e, obs) := c in
+  match obs with
+  | None => 87
+  | Some o => if list_eqb Nat.eqb (map Ascii.nat_of_ascii (check_extension (map Ascii.ascii_of_nat f) (map Ascii.ascii_of_nat e))) o
+              then 0 else 87
+  end.
